@@ -13,20 +13,6 @@ import (
 	svc "vdesign/gen/svc"
 )
 
-// jsonPutResponse: encoding/json between the server's and the client's
-// response body structs.
-func jsonPutResponse(dst *client.PutResponseBody, src *server.PutResponseBody) {
-	rid, rc := src.Rid, src.Rc
-	dst.Rid, dst.Rc = &rid, &rc
-	if src.Item != nil {
-		n := src.Item.N
-		dst.Item = &client.ItemResponseBody{N: &n, S: src.Item.S}
-	}
-	if len(src.List) > 0 {
-		dst.List = append([]int{}, src.List...)
-	}
-}
-
 // VerifC03_a1_put: the result returned by the service reaches the client
 // caller equal, with the designed status, headers and defaults.
 func VerifC03_a1_put() {
@@ -79,10 +65,7 @@ func VerifC03_a1_put() {
 	// ---- the wire back and the generated client decoder
 	resp := &http.Response{StatusCode: w.status, Header: w.h, Body: io.NopCloser(strings.NewReader(""))}
 	decode := client.DecodePutResponse(func(*http.Response) goahttp.Decoder {
-		return stubDecoder{func(v any) error {
-			jsonPutResponse(v.(*client.PutResponseBody), sbody)
-			return nil
-		}}
+		return stubDecoder{func(v any) error { return verifJSONCopy(v, sbody) }}
 	}, false)
 	out, derr := decode(resp)
 	verifAssert("client-decodes-without-error", derr == nil)
